@@ -1048,8 +1048,8 @@ def shrink(v, observe):
     return v
 
 
-THEOREMS[:] = ['C12_table_sweep', 'C12_table', 'C12_known_operators', 'C12_extract_except_known', 'C12_extract_refuted',
-               'C12_reject', 'C12_extract_bytes_except_known', 'C12_reject_bytes', 'C12_extract_bytes_total',
+THEOREMS[:] = ['C12_table_sweep', 'C12_table', 'C12_known_operators', 'C12_extract',
+               'C12_reject', 'C12_extract_bytes', 'C12_reject_bytes', 'C12_extract_bytes_total',
                'C12_extract_bytes_total_release', 'C12_extract_total']
 RULE = ('exhaustive: every (level, operator) pair (5 levels x 73 operators + 2 unknown operators, at compatibility depth 0 and 1), '
         'reached by a shortest legal prefix, alone and followed by 5 probes that identify the level reached; generative: random '
@@ -1071,12 +1071,12 @@ ASSUMPTIONS = ['operand objects are not comments (the lexer never produces one: 
                'the PDFObjContext recursion bound is the caller\'s (50 in the runner)']
 LEVEL_TEXT = ('Coq theorems: (1) for every level of Figure 9 and every operator name the implementation (OPERATORS table lookup + the '
               'transition match, both translated from the Rust source on every run) permits the operator iff Figure 9 does and moves '
-              'to the same level - a kernel-computed sweep over 5 x (73 + 73) pairs lifted to all names; (2) every non-empty legal '
+              'to the same level - a kernel-computed sweep over 5 x (73 + 73) pairs lifted to all names; (2) every legal '
               'walk (any length, nested BX with unknown operators, any operands where the property does not constrain them) is '
               'accepted and yields exactly the documented tokens; (3) every stream with an operator not permitted at its level, an '
               'unknown operator outside BX/EX or a text-showing operator with wrong operand count/kind is rejected - by induction on '
               'the operator list with invariant (level, compatibility depth); (4) the same for the bytes whenever the modelled lexer '
-              'reads them as such a token list.  The empty stream is rejected (known finding, witness theorem).  Model tied to the '
+              'reads them as such a token list; (5) the byte-level extractor never panics below 2^31 bytes.  Model tied to the '
               'code by a differential run: every (level, operator) pair with level-identifying probes, random walks, single-step '
               'deviations, byte-level mutants')
 LEVEL_NOTE = ('trusted: Coq kernel (vm_compute in the sweep), hand transcriptions coq/Model/Content.v and ContentLex.v (+ Model/Prim.v, '
